@@ -111,7 +111,7 @@ PROPS = {
 EXPECT = {
     "C17": ["Tibc.Expect.Bsc"],
     "C18": ["Tibc.Expect.Eth"],
-    "C20": ["Tibc.Expect.Bsc", "Tibc.Expect.Eth"],
+    "C20": ["Tibc.Expect.Bsc", "Tibc.Expect.Eth", "Tibc.Expect.Determinism"],
 }
 for _p in ("C01", "C02", "C03", "C04", "C05", "C06", "C09", "C10", "C11", "C13", "C16", "C19"):
     EXPECT[_p] = ["Tibc.Expect.Packet"]
